@@ -359,7 +359,7 @@ func (dsp *DepositSweepProposal) Unmarshal(bytes []byte) error {
 
 	depositsRevealBlocks := make([]*big.Int, len(pbMsg.DepositsRevealBlocks))
 	for i, block := range pbMsg.DepositsRevealBlocks {
-		depositsRevealBlocks[i] = big.NewInt(int64(block))
+		depositsRevealBlocks[i] = new(big.Int).SetUint64(block)
 	}
 
 	dsp.DepositsKeys = depositsKeys
